@@ -413,12 +413,20 @@ impl<T: Sync + Send + 'static> Nucleo<T> {
         } else {
             #[cfg(nucleo_verif)]
             verif::point("tick:try_lock", timeout);
-            let Some(worker) = self.worker.try_lock_arc_for(Duration::from_millis(timeout)) else {
+            let worker = self.worker.try_lock_arc_for(Duration::from_millis(timeout));
+            let Some(worker) = worker.or_else(|| {
                 #[cfg(nucleo_verif)]
                 verif::point("tick:try_lock_failed", 0);
                 self.should_notify.store(true, Ordering::Release);
                 #[cfg(nucleo_verif)]
                 verif::point("tick:rearmed", 0);
+                // The worker may have finished and looked at `should_notify` between the failed
+                // lock attempt and the store above, in which case nobody would ever notify us.
+                // The worker releases the lock *before* it reads the flag, so after arming the
+                // flag either this second attempt succeeds or the worker sees the flag.
+                atomic::fence(Ordering::SeqCst);
+                self.worker.try_lock_arc()
+            }) else {
                 return Status {
                     changed: false,
                     running: true,
@@ -448,8 +456,19 @@ impl<T: Sync + Send + 'static> Nucleo<T> {
             }
             #[cfg(nucleo_verif)]
             verif::point("tick:before_spawn", cleared as u64);
-            self.pool
-                .spawn(move || unsafe { inner.run(status, cleared) })
+            self.pool.spawn(move || {
+                unsafe { inner.run(status, cleared) };
+                let finished = !inner.was_canceled;
+                let should_notify = inner.should_notify.clone();
+                let notify = inner.notify.clone();
+                // release the worker before notifying (and before looking at the flag, see
+                // `tick_inner`): a tick triggered by the notification must find the results
+                drop(inner);
+                atomic::fence(Ordering::SeqCst);
+                if finished && should_notify.load(Ordering::Relaxed) {
+                    notify()
+                }
+            })
         }
         Status { changed, running }
     }
